@@ -60,13 +60,13 @@ CHECKS = {
          "Every family header.u^n.v^n.end (|u|<=2, |v|<=1 quick / 2 thorough), value-length, distinct-name, distinct-member and long-name-with-many-values families: allocation during parse is bounded by one linear constant, callgrind instruction counts grow < 2.6x per doubling for the costliest and structurally dangerous families, wall-clock only as a 100x backstop.",
          "Bounded evidence for an asymptotic claim; aperiodic adversarial inputs are outside the class.", "DESIGN.md §5 C15"),
  "C16": ("exploration", "complete enumeration of all 65 536 codes / 256 tag bytes against registry tables R2",
-         "Status decoding is total and exact over all 16-bit codes, for every protocol version x request-id, in memory and on parsed responses; the readiness helper's status gate (all codes, with and without a printer group) and the command-line tool's own classification (exit status of ipputil print for 825 status codes) agree; operation ids, delimiter and value tags and the five enum types never map a code to a symbol of a different code; success classification is right on 0-2 and never true >= 0x0100; each value kind is emitted with its registered tag.",
+         "Status decoding is total and exact over all 16-bit codes, for every protocol version x request-id, in memory and on parsed responses (bare and with attribute groups; the parser must not alter the status word); the readiness helper's status gate (all codes, with and without a printer group) and the command-line tool's own classification (exit status of ipputil print for 825 status codes) agree; operation ids, delimiter and value tags and the five enum types never map a code to a symbol of a different code; success classification is right on 0-2 and never true >= 0x0100; each value kind is emitted with its registered tag.",
          "Registry tables typed in from RFC 8010/8011, PWG 5100.1, CUPS. Completeness is demanded for status codes only (as the property states).", "DESIGN.md §5 C16"),
  "C17": ("exploration", "exhaustive product status x state x reason tuples x shape x context; oracle = readiness spec R5 (defined regions only)",
          "All 65 536 statuses through the gate; every ordered tuple of 1..2 (3) reason keywords (3 (4) on a reduced product) over 10 blocking + 6 informational words, 9 printer-state forms, in-memory and parsed-from-wire shapes, seven contexts (decoy groups, split printer groups).",
          "Cases outside the three regions the statement defines accept any Ok(_).", "DESIGN.md §5 C17"),
  "C19": ("model_checking", "explicit-state BFS to a fixpoint (closed state space) over real IppAttributes objects rebuilt from histories; reference = ordered container model R6; exhaustive traversal check",
-         "The reachable state space of add() over a 16 (24)-operation alphabet is explored to a fixpoint from the empty container and from parser-produced messages with repeated/empty groups; every transition compares groups(), groups_of(kind) and into_groups() with the model. Value traversal is compared element-by-element (pointer identity) for every value of a bounded value space and for collections over every subset of <= 3 of 11 tricky member names (empty, case twins, NFC/NFD, trailing blank/NUL), built in memory and parsed.",
+         "The reachable state space of add() over a 16 (24)-operation alphabet is explored to a fixpoint from the empty container and from parser-produced messages with repeated/empty groups; every transition compares groups(), groups_of(kind) and into_groups() with the model. Value traversal is compared element-by-element (pointer identity), also through nth / skip / step_by / count on a partly consumed traversal, for every value of a bounded value space and for collections over every subset of <= 3 of 11 tricky member names (empty, case twins, NFC/NFD, trailing blank/NUL), built in memory and parsed.",
          "Canonical state = ordered (kind, sorted map) list; holds for histories of any length over the alphabet because the space is closed.", "DESIGN.md §5 C19"),
 }
 
